@@ -1847,15 +1847,16 @@ class Emitter:
         fields = [f for f in inner(rec) if f.get('kind') == 'FieldDecl']
         caps = ii[1:len(fields) + 1]
         cmap = {}
-        for f, c in zip(fields, caps):
+        for i, (f, c) in enumerate(zip(fields, caps)):
             cc = c
             while cc.get('kind') in ('ImplicitCastExpr', 'ParenExpr') and inner(cc):
                 cc = inner(cc)[0]
             byref = self.is_ref_type(qt(f))
+            fname = f.get('name') or ('_f%d' % i)
             if cc.get('kind') == 'CXXThisExpr':
-                cmap['this'] = (f['name'], False)
+                cmap['this'] = (fname, False)
             elif cc.get('kind') == 'DeclRefExpr':
-                cmap[cc['referencedDecl']['id']] = (f['name'], byref)
+                cmap[cc['referencedDecl']['id']] = (fname, byref)
             else:
                 raise ExtractError('lambda init-capture / unsupported capture expression ' + str(cc.get('kind')))
         self.closures[rec['id']] = cmap
